@@ -91,7 +91,12 @@ def rays_of(o, H, P, w, surfaces=None):
     G.quiet(o.trace_generic, Hx, Hy, Px, Py, w)
     sg = o.surface_group
     ks = surfaces if surfaces is not None else list(range(1, sg.num_surfaces))
-    arr = (sg.x, sg.y, sg.z, sg.L, sg.M, sg.N, sg.opd)
+    # the path is counted from the first surface on: the launch plane of an infinite object is
+    # placed by the library at a distance that depends on the vertex positions (an arbitrary
+    # reference, not part of the physical system)
+    opd1 = np.array(sg.opd)
+    rel = opd1 - opd1[1]
+    arr = (sg.x, sg.y, sg.z, sg.L, sg.M, sg.N, rel)
     return [[[dy(float(a[k][r])) for a in arr] for k in ks] for r in range(n)]
 
 
